@@ -45,6 +45,8 @@ def run(ck):
         for x in hir.walk(root):
             cal = hir.base_path(hir.callee(x) or "")
             if cal and cal.startswith(ADAPTER):
+                if b.get("trait") == ADAPTER.rstrip(":"):
+                    continue        # an Adapter that forwards to another Adapter (`impl Adapter for &mut A`) is a transport, not a user of one
                 n_adapter += 1
                 key = "%s:%s#%d" % (b["def"], cal.split("::")[-1], n_adapter)
                 ck.judge(b["def"] == PROCESS or hir.base_path(b["def"]) in ctx.inline_helpers(lib), "C10-T1", key + ":where", "transport call inside process",
